@@ -5,7 +5,7 @@
    specification, for every tree, every weighted voter set and all vote sets (no bound). *)
 From Coq Require Import List NArith Permutation.
 From Grandpa Require Import Tree Votes RoundSpec RoundProofs.
-From C20 Require Import Model Proofs ProofsPossible Graph GraphCheck GraphProofs.
+From C20 Require Import Model Proofs ProofsPossible Graph GraphCheck GraphProofs GraphInv GraphInvAppend.
 Import ListNotations.
 Local Open Scope N_scope.
 
@@ -207,6 +207,55 @@ Theorem C20_graph_mirror_small_scope : forall k len ws,
   all_ok tr ws (fold_left (fun st o => step_op tr lbl ws (fst o) (snd o) st) h1 rinit) = true.
 Proof. exact mirror_refines_spec_small_scope. Qed.
 Print Assumptions C20_graph_mirror_small_scope.
+
+(* ---- UNBOUNDED statements about the mirror's Insert (every tree, every graph, any number of
+   votes), for the two paths that do not split an edge.  Invariants (C20/GraphInv.v):
+     chain_inv t G : the ancestor edge of every vote-node ends in the nearest vote-node above it;
+     cum_ok t G I  : the cumulative vote of every vote-node y holds exactly the bits of the inserted
+                     votes I whose block is y or a descendant of y.
+   They hold of the initial graph (C20_graph_init_inv).  The third path (introduceBranch) and the
+   fact that findContainingNodes answers the empty list only when no vote-node lies below the
+   block are covered by C20_graph_mirror_small_scope only. *)
+Theorem C20_graph_init_inv : forall t,
+  chain_inv t (r_G rinit) /\ cum_ok t (r_G rinit) [] /\ (exists e0, eget 0%nat (r_G rinit) = Some e0).
+Proof. exact init_graph_inv. Qed.
+Print Assumptions C20_graph_init_inv.
+
+(* Insert of a vote whose block already has a vote-node: only the cumulative votes change, exactly
+   the vote-nodes at or above the block get the bit *)
+Theorem C20_graph_insert_existing_node : forall t lbl G heads h b ins e0,
+  chain_inv t G -> cum_ok t G ins -> eget h G = Some e0 ->
+  let '(G', heads') := insert t lbl G heads h b in
+  heads' = heads /\ chain_inv t G' /\ cum_ok t G' ((h, b) :: ins) /\
+  (forall y, option_map g_anc (eget y G') = option_map g_anc (eget y G)) /\
+  (forall y, option_map g_desc (eget y G') = option_map g_desc (eget y G)).
+Proof. exact insert_existing_node. Qed.
+Print Assumptions C20_graph_insert_existing_node.
+
+(* Insert through append: the block has no vote-node, lies in no ancestor edge, and no vote-node
+   lies below it *)
+Theorem C20_graph_insert_append : forall t lbl G heads h b ins,
+  chain_inv t G -> cum_ok t G ins ->
+  (exists e0, eget 0%nat G = Some e0) ->
+  eget h G = None -> find_containing t lbl G heads h = Some [] ->
+  (forall y ey, eget y G = Some ey -> ~ anc t h y) ->
+  (forall p, In p ins -> exists e, eget (fst p) G = Some e) ->
+  let '(G', heads') := insert t lbl G heads h b in
+  chain_inv t G' /\ cum_ok t G' ((h, b) :: ins) /\
+  (exists e, eget h G' = Some e) /\
+  (forall p, In p ((h, b) :: ins) -> exists e, eget (fst p) G' = Some e).
+Proof. exact insert_append. Qed.
+Print Assumptions C20_graph_insert_append.
+
+(* under cum_ok the weight context.Weight gives a vote-node is the weight of the voters with an
+   inserted vote of the phase at or below the node, or an equivocation bit *)
+Theorem C20_graph_node_weight : forall t ws G ins y e eqv ph,
+  cum_ok t G ins -> eget y G = Some e ->
+  bits_weight ws (g_cum e) eqv ph =
+  wsum ws (fun v => orb (existsb (fun p => andb (Nat.eqb (snd p) (2 * v + ph)%nat) (ancb t y (fst p))) ins)
+                        (memb (2 * v + ph)%nat eqv)).
+Proof. exact cum_ok_weight. Qed.
+Print Assumptions C20_graph_node_weight.
 
 (* for all trees, weights and votes: a bitfield whose bits (merged with the equivocations) are the
    supporters of a block weighs Votes.weight of that block *)
